@@ -153,6 +153,66 @@ def run(tier: str) -> int:
     f_.set_constraint([_Hookean(a1=0, a2=(0.4, -0.3, 0.2), k=1.5, rt=0.0), _Hookean(a1=2, a2=3, k=0.8, rt=0.0)])
     f_.calc = EMT()
     systems.append(("emt_hookean_restraints", f_))
+    # ---- a proposal returned after the user's geometric check refused earlier trajectories of the same trial is still THE
+    # velocity-Verlet trajectory from the start configuration with the momenta drawn last (calculators that cache results)
+    from quansino.moves.displacement import HamiltonianDisplacementMove as _HDM
+
+    nveto = 0
+    for name, at in systems[:3]:
+        for nref in (0, 1, 2):
+            w = at.copy()
+            w.calc = type(at.calc)(**at.calc.parameters) if name in ("emt", "lj") else at.calc
+            w.get_potential_energy()
+            x0 = w.get_positions().copy()
+            ctx = context_for(w, seed=31 + nref)
+            ctx.temperature = 400.0
+            ctx.save_state()
+            drawn = []
+
+            def dist(c, drawn=drawn):
+                maxwell_boltzmann_distribution(c)
+                drawn.append(c.atoms.get_momenta().copy())
+
+            mv = _HDM(distribution=dist, operation=Verlet(dt=1.0, max_steps=5))
+            left = [nref]
+
+            def check(*_a, left=left):
+                if left[0] > 0:
+                    left[0] -= 1
+                    return False
+                return True
+
+            mv.check_move = check
+            mv.max_attempts = 5
+            nveto += 1
+            rep.count(("veto-then-proposal", name, nref), nontrivial=nref > 0)
+            try:
+                ok = mv(ctx)
+            except Exception as ex:  # noqa: BLE001
+                rep.violation(f"raise:veto-then-proposal:{name}:{type(ex).__name__}", f"{name}: a Hamiltonian move with {nref} refused trajectories raised {ex!r}", {"system": name, "refused": nref})
+                continue
+            if not ok or len(drawn) != nref + 1:
+                rep.error(f"veto layer: {name} with {nref} refusals returned {ok} after {len(drawn)} draws (expected success after {nref + 1})")
+                continue
+            ref = at.copy()
+            ref.calc = type(at.calc)(**at.calc.parameters) if name in ("emt", "lj") else at.calc
+            ref.set_positions(x0)
+            ref.set_momenta(drawn[-1])
+            Verlet(dt=1.0, max_steps=5).integrate(context_for(ref))
+            dx = np.abs(w.get_positions() - ref.get_positions()).max()
+            dp = np.abs(w.get_momenta() - ref.get_momenta()).max()
+            if dx > 1e-10 or dp > 1e-10 * max(1.0, np.abs(drawn[-1]).max()):
+                rep.violation(f"proposal-after-veto:{name}", f"{name}: the proposal returned after {nref} refused trajectories is not the velocity-Verlet trajectory from the start configuration with the momenta drawn last: positions differ by {dx:.2e} A, momenta by {dp:.2e} (stale forces from a refused trajectory?)", {"system": name, "refused": nref})
+            # ... and when the trial is then rejected, the forces the next trajectory starts from are those of the restored
+            # configuration (calculators that refill their force array in place must not leak into the remembered results)
+            ctx.revert_state()
+            fresh = at.copy()
+            fresh.calc = type(at.calc)(**at.calc.parameters) if name in ("emt", "lj") else at.calc
+            fresh.set_positions(x0)
+            df = np.abs(w.get_forces() - fresh.get_forces()).max()
+            if np.abs(w.get_positions() - x0).max() > 0 or df > 1e-10:
+                rep.violation(f"forces-after-rejection:{name}", f"{name}: after a rejected Hamiltonian trial the forces served for the restored configuration differ from a from-scratch evaluation by {df:.2e} eV/A: the next trajectory would start from stale forces", {"system": name, "refused": nref})
+    rep.add(veto_then_proposal_cases=nveto)
     nreal = 0
     for name, at in systems:
         from ase.md.velocitydistribution import MaxwellBoltzmannDistribution
